@@ -28,19 +28,20 @@ def parseFrame (s : String) : Option Frame :=
 def parseFrames (s : String) : Option (List Frame) :=
   if s = "-" then some [] else (s.splitOn ";").mapM parseFrame
 
-/-- `fcs=<n|-> init=<0|1> tail=<0|1> frames=<w:l;w:l|->` -/
-def parseFacts (a b c d : String) : Option Facts := do
+/-- `fcs=<n|-> init=<0|1> tail=<0|1> ewd=<0|1> frames=<w:l;w:l|->` -/
+def parseFacts (a b c e d : String) : Option Facts := do
   let f ← (kv "fcs" a) >>= parseOptNat
   let i ← (kv "init" b) >>= parseBool01
   let t ← (kv "tail" c) >>= parseBool01
+  let w ← (kv "ewd" e) >>= parseBool01
   let fr ← (kv "frames" d) >>= parseFrames
-  pure { fcs := f, initErr := i, frames := fr, tailErr := t }
+  pure { fcs := f, initErr := i, frames := fr, tailErr := t, errWithData := w }
 
-/-- facts of several layers: groups of four words -/
+/-- facts of several layers: groups of five words -/
 def parseLayers : List String → Option (List Facts)
   | [] => some []
-  | a :: b :: c :: d :: rest => do
-    let f ← parseFacts a b c d
+  | a :: b :: c :: e :: d :: rest => do
+    let f ← parseFacts a b c e d
     let more ← parseLayers rest
     pure (f :: more)
   | _ => none
@@ -71,21 +72,21 @@ def step (st : St) (ws : List String) : St × String :=
     | some pb => (st, s!"exempt={isExempt st.pfx pb}")
     | none => (st, "bad-op")
   -- hook level: readHTTPBody
-  | ["read", p, n, e, sha, f1, f2, f3, f4] =>
-    match parseHexArg p, n.toNat?, parseHexArg e, kv "sha" sha, parseFacts f1 f2 f3 f4 with
+  | ["read", p, n, e, sha, f1, f2, f3, f4, f5] =>
+    match parseHexArg p, n.toNat?, parseHexArg e, kv "sha" sha, parseFacts f1 f2 f3 f4 f5 with
     | some pb, some rawLen, some eb, some h, some facts =>
       let r := readBody st.cfg (isExempt st.pfx pb) rawLen eb facts
       (st, s!"{showROut h r.1} raw={r.2.1}")
     | _, _, _, _, _ => (st, "bad-op")
   -- through ServeHTTP: fast path + handler
-  | ["post", p, cl, n, e, sha, f1, f2, f3, f4] =>
-    match parseHexArg p, cl.toInt?, n.toNat?, parseHexArg e, kv "sha" sha, parseFacts f1 f2 f3 f4 with
+  | ["post", p, cl, n, e, sha, f1, f2, f3, f4, f5] =>
+    match parseHexArg p, cl.toInt?, n.toNat?, parseHexArg e, kv "sha" sha, parseFacts f1 f2 f3 f4 f5 with
     | some pb, some c, some rawLen, some eb, some h, some facts =>
       let r := serve st.cfg (isExempt st.pfx pb) c rawLen eb facts
       (st, showROut h r.1)
     | _, _, _, _, _, _ => (st, "bad-op")
-  | ["dec", c, m, sha, f1, f2, f3, f4] =>
-    match codecOf c, m.toInt?, kv "sha" sha, parseFacts f1 f2 f3 f4 with
+  | ["dec", c, m, sha, f1, f2, f3, f4, f5] =>
+    match codecOf c, m.toInt?, kv "sha" sha, parseFacts f1 f2 f3 f4 f5 with
     | some codec, some mx, some h, some facts =>
       (st, showDOut h (decompressBounded codec facts mx).1)
     | _, _, _, _ => (st, "bad-op")
